@@ -758,8 +758,30 @@ func search(c *h.Check, cf config) {
 						violate(found{v, termCase{"sequence", pseq}})
 					}
 				}
+				// ... and two closing chains: all well-formed registrations one after the
+				// other in one history, in alphabet order and in reverse order (each step
+				// compared with the model like any other). Scratch state the registry keeps
+				// besides the graph (search stamps, counters, memoised plans) can go wrong
+				// several operations after the call that disturbed it, for instance after a
+				// clear that returns to a graph seen before and is therefore not extended.
+				for dir := 0; dir < 2; dir++ {
+					cseq := append([]up.Op(nil), seq...)
+					for k := range probes {
+						if dir == 0 {
+							cseq = append(cseq, probes[k])
+						} else {
+							cseq = append(cseq, probes[len(probes)-1-k])
+						}
+					}
+					cvs, _ := runSequence(cseq)
+					for _, v := range cvs {
+						violate(found{v, termCase{"sequence", cseq}})
+					}
+				}
+				c.Count("closing_chains", 2)
 				n := int64(len(probes))
-				c.Count("transitions", n)
+				c.Count("transitions", 3*n)
+				c.Count("traces_validated_against_impl", 2*n)
 				c.Count("lookahead_transitions", n)
 				c.Count("traces_validated_against_impl", n)
 				c.Count("evaluations", n)
